@@ -39,12 +39,25 @@ def _mk(fname, sh, moore, plus_one, nh, ng):
                 run=run, label='per-shape')
 
 
+def _counts_for(sh, counts):
+    """Numbers of liveness predicates by size of the shape: the expansion of a
+    nested fixpoint obligation grows with 2^(state bits) x #holds x #goals; the
+    budget keeps every family below a few minutes on a loaded machine."""
+    nb = shapes.n_state_bits(sh)
+    if nb <= 3:
+        return list(counts)
+    if nb == 4:
+        return [c for c in counts if c[0] * c[1] <= 4]
+    return [c for c in counts if c[0] * c[1] <= 2]
+
+
 def families(tier, seed):
     out = list()
-    counts = [(1, 1), (2, 1), (1, 2), (2, 2)]
+    counts_all = [(1, 1), (2, 1), (1, 2), (2, 2)]
     if tier == 'thorough':
-        counts += [(3, 1), (1, 3), (3, 2), (2, 3), (3, 3)]
+        counts_all += [(3, 1), (1, 3), (3, 2), (2, 3), (3, 3)]
     for sh in shapes.family(tier, seed):
+        counts = _counts_for(sh, counts_all)
         for moore, plus_one in shapes.MODES:
             out.append(_mk('cpre_duality', sh, moore, plus_one, 1, 1))
             out.append(_mk('_attractor_inside', sh, moore, plus_one, 1, 1))
@@ -61,4 +74,4 @@ def families(tier, seed):
 def coverage_extra(results):
     return dict(bounded_parameters=dict(
         declaration_shape='finite family; data symbolic',
-        n_liveness='(#holds,#goals) in {1,2}^2 quick, {1,2,3}^2 thorough', modes='all 4'))
+        n_liveness='(#holds,#goals) in {1,2}^2 quick, {1,2,3}^2 thorough (shapes with 4 state bits: product <= 4; 5 bits: product <= 2)', modes='all 4'))
